@@ -24,6 +24,30 @@ PROPS = {
         verus=["glyf"],
         not_decided="build_subset_font (glyf/loca/hmtx rebuild), CFF, outline and advance-width equality (need a font parser as oracle)",
     ),
+    "C04": dict(
+        verus=["prevmerge"],
+        not_decided="that parse_primary_with_options builds each revision's table faithfully from bytes; the recovery scan (add_headers_latest_wins pending); object-stream extraction; that load_object_from_disk's lookup order is extended_entries-then-entries (transcribed in `dispatch`)",
+    ),
+    "C10": dict(
+        kani=[K("c10_text_kernel_ascii", "text/encoding.rs", "winansi_decode_char (reader's non-BOM text path)"),
+              K("c10_text_kernel_non_ascii", "text/encoding.rs", "winansi_decode_char (reader's non-BOM text path)")],
+        not_decided="the glue: that decode_text_string is that per-byte map and that each emission site emits those bytes (String/iterator code outside both verifiers); UTF-16BE/BOM path of incremental_text_notes::pdf_text",
+    ),
+    "C24": dict(
+        kani=[K("c24_paeth_predictor_png_spec", "graphics/png_decoder.rs", "paeth_predictor")],
+        not_decided="inflate (dependency), unfilter_row pending, bit-depth expansion, palettes, tRNS, interlace, XObject assembly, SMask",
+    ),
+    "C25": dict(
+        kani=[K("c25_winansi_encode_char_annexd", "text/encoding.rs", "winansi_encode_char"),
+              K("c25_winansi_decode_char_contract", "text/encoding.rs", "winansi_decode_char"),
+              K("c25_winansi_inverse", "text/encoding.rs", "winansi_encode_char/winansi_decode_char"),
+              K("c25_macroman_encode_char_annexd", "text/encoding.rs", "macroman_encode_char")],
+        not_decided="TextEncoding::{encode, encode_strict, decode} (str::chars/String: outside both verifiers); StandardEncoding/PDFDocEncoding tables",
+    ),
+    "C28": dict(
+        verus=["outline"],
+        not_decided="sibling/parent/first/last links of write_outline_tree/write_outline_item (pending), destinations resolve to the authored page, name trees",
+    ),
     "C05": dict(
         verus=["rc4"],
         kani=[K("c05_perm_print", "encryption/permissions.rs", "Permissions::set_print/can_print"),
